@@ -123,7 +123,7 @@ Definition st_with (s0 : sc strin) (chars : list N) (lk : nat) (m : marker) (w :
      sc_stream_start := sc_stream_start s0; sc_stream_end := sc_stream_end s0; sc_adjacent := sc_adjacent s0;
      sc_ska := sc_ska s0; sc_sks := sc_sks s0; sc_indent := sc_indent s0; sc_indents := sc_indents s0;
      sc_flow_level := sc_flow_level s0; sc_tokens_parsed := sc_tokens_parsed s0;
-     sc_token_available := sc_token_available s0; sc_lws := w; sc_fms := sc_fms s0; sc_ifms := sc_ifms s0 |}.
+     sc_token_available := sc_token_available s0; sc_lws := w; sc_ifms := sc_ifms s0 |}.
 
 Lemma st_with_id s : s = st_with s (si_chars (sc_in s)) (si_look (sc_in s)) (sc_mark s) (sc_lws s).
 Proof. destruct s as [[c l] m]; reflexivity. Qed.
